@@ -134,7 +134,9 @@ SubmitPanic(k) ==
   /\ sub' = [sub EXCEPT ![k] = "panic"]
   /\ UNCHANGED <<running, cur, q, closed, cancelled, w, sq, res, runs, stp, stq, rs, rmu>>
 
-\* result, ok := <-resultChan.  ok = FALSE ("notrun"): ExecuteWithWorker runs the task itself
+\* result, ok := <-resultChan.  ok = FALSE ("notrun"): ExecuteWithWorker runs the task itself.
+\* There is no other way out of the wait: no timer, no timeout of the tuning options; a submitter
+\* that gave up while its task is still queued or running would make NotRunIsTrue false.
 SubRecv(k) ==
   /\ sub[k] = "waiting" /\ res[k] # "empty"
   /\ sub' = [sub EXCEPT ![k] = CASE res[k] = "val" -> "result"
